@@ -12,6 +12,10 @@
 (*          accepted document that encodes no value is only printed as OBS.    *)
 (*   Direct UnmarshalJSON called directly on such a document: any result but a *)
 (*          panic.                                                             *)
+(*   Seq    one step of a sequence of documents decoded into ONE reused target  *)
+(*          (a variable, or the reused elements of a slice): accepted iff the  *)
+(*          full state of the target afterwards is Denote(document) - what a   *)
+(*          fresh decode gives - whatever the target held before (ReuseOK).    *)
 (*   Panic  has no action.                                                     *)
 (* The events are independent, so a rejected event does not stop the segment:  *)
 (* it is printed as <<"REJ", line>> and not counted as accepted.  Register i   *)
@@ -24,7 +28,7 @@ EXTENDS JsonForms, Json
 Trace == ndJsonDeserialize("trace.ndjson")
 N     == Len(Trace)
 VARIABLES l, seg
-tvars == <<m, l, seg>>
+tvars == <<m, tgt, l, seg>>
 
 Starts == {i \in 1..N : Trace[i].k = "Reset"}
 ASSUME \A i \in Starts : TLCSet(i, 0)
@@ -48,16 +52,24 @@ JudgeDec ==
   /\ DecodeOK(E.ty, doc, E.res, E.back)
   /\ Has("encof") => EncoderTextOK(E.ty, E.encof, E.res, E.back)        \* doc = the encoder's text for E.encof
 
+\* one step of a sequence of documents decoded into ONE reused target (JsonForms 4b): E.fresh / E.freshres is
+\* Denote(doc), E.after the full state of the reused target after the step, E.before its state before
+JudgeSeq ==
+  /\ (E.how = "var" /\ E.step > 1) => (E.before = tgt \/ PrintT(<<"SEQBROKEN", l>>))     \* recorder consistency, not a verdict
+  /\ ReuseOK(E.freshres = "ok", E.fresh, E.res = "ok", E.after)
+
 Judge == CASE E.k = "Reset"  -> l = seg
+           [] E.k = "Seq"    -> JudgeSeq
            [] E.k = "RT"     -> JudgeRT
            [] E.k = "Dec"    -> JudgeDec
            [] E.k = "Direct" -> E.res \in {"ok", "err"}
            [] OTHER          -> FALSE                \* Panic, or anything unknown
 
-TraceInit == l \in Starts /\ seg = l /\ m = M0
+TraceInit == l \in Starts /\ seg = l /\ m = M0 /\ tgt = FreshTarget
 TraceNext == /\ l <= N
              /\ (l # seg => Trace[l].k # "Reset")      \* a segment ends at the next Reset
              /\ IF Judge THEN TLCSet(seg, TLCGet(seg) + 1) ELSE PrintT(<<"REJ", l>>)
+             /\ tgt' = (IF E.k = "Seq" THEN E.after ELSE IF E.k = "Reset" THEN FreshTarget ELSE tgt)
              /\ l' = l + 1 /\ UNCHANGED <<seg, m>>
 TraceSpec == TraceInit /\ [][TraceNext]_tvars
 
